@@ -3,7 +3,9 @@
    real call ended with must be the one the model's future holds. *)
 Require Export QV.Lib.Corr QV.C01.Model.
 
-Inductive oclass := CValue | CExc | CLocked | CDelivery | CNone.
+Inductive oclass := CValue | CExc | CLocked | CDelivery | CNone | CTimeout.
+(* CTimeout (observed only): the caller gave up after its own rpc_timeout and abandoned the future; whatever
+   the pipeline later does with that call is not observable, so its outcome is not compared *)
 
 Definition class_of (o : option outcome) : oclass :=
   match o with
@@ -14,6 +16,7 @@ Definition class_of (o : option outcome) : oclass :=
 Definition oclass_eqb (a b : oclass) : bool :=
   match a, b with
   | CValue, CValue | CExc, CExc | CLocked, CLocked | CDelivery, CDelivery | CNone, CNone => true
+  | _, CTimeout => true
   | _, _ => false
   end.
 
